@@ -297,7 +297,7 @@ func (*Lexer).SetErrorRecovery
   ensures l.errorRecovery == er
 
 func NewParser
-  props C11
+  props C11 C06 C16 C17
   option safety
   modifies *
   ensures parOK(result) && result.input == input && result.lexer.pos == 0
@@ -325,37 +325,37 @@ func (*ParseError).IsRecoverable
   ensures result == e.Recoverable
 
 func (*Parser).GetErrors
-  props C11
+  props C11 C06 C16 C17
   option safety
   requires parOK(p)
   ensures result == p.errorRecovery.errors
 
 func (*Parser).HasErrors
-  props C11
+  props C11 C06 C16 C17
   option safety
   requires parOK(p)
 
 func (*Parser).getTokenTypeName
-  props C11
+  props C11 C06 C16 C17
   option safety
   requires p != nil
 
 func (*Parser).createTokenError
-  props C11
+  props C11 C06 C16 C17
   option safety
   requires p != nil
   modifies heap(ParseError.Context), heap(ParseError.Message)
   ensures fresh(result)
 
 func (*Parser).shouldAttemptRecovery
-  props C11
+  props C11 C06 C16 C17
   option safety
   requires parOK(p) && err != nil
   modifies heap(Lexer.ch), heap(Lexer.pos), heap(Lexer.readPos), heap(Lexer.line), heap(Lexer.column), heap(ErrorRecovery.errors)
   ensures parOK(p) && p.lexer.pos >= old(p.lexer.pos)
 
 func (*Parser).expectTokenWithDepth
-  props C11
+  props C11 C06 C16 C17
   option safety
   requires parOK(p) && depth >= 0
   decreases 32 - depth
@@ -364,7 +364,7 @@ func (*Parser).expectTokenWithDepth
   ensures success-means-the-expected-kind: result1 == nil ==> result0.Type == expected
 
 func (*Parser).expectToken
-  props C11
+  props C11 C06 C16 C17
   option safety
   requires parOK(p)
   modifies *
@@ -372,14 +372,14 @@ func (*Parser).expectToken
   ensures success-means-the-expected-kind: result1 == nil ==> result0.Type == expected
 
 func (*Parser).createDetailedError
-  props C11
+  props C11 C06 C16 C17
   option safety
   requires p != nil && errOK(err)
   modifies heap(ParseError.Context)
   ensures errOK(result) && (err != nil ==> result != nil)
 
 func (*Parser).createCombinedError
-  props C11
+  props C11 C06 C16 C17
   option safety
   requires parOK(p)
   modifies heap(ParseError.Context)
@@ -387,7 +387,7 @@ func (*Parser).createCombinedError
   ensures errOK(result)
 
 func (*Parser).peekToken
-  props C11
+  props C11 C15
   option safety
   requires parOK(p)
   modifies p.errorRecovery.errors
@@ -399,7 +399,7 @@ func (*Parser).peekToken
 /*@
 // ---------------------------------------------------------------- clause parsers (C11)
 func (*Parser).parseOrderBy
-  props C11
+  props C11 C06 C16 C17
   option safety
   requires parOK(p) && stmt != nil
   modifies stmt.OrderBy, p.errorRecovery.errors
@@ -416,7 +416,7 @@ func (*Parser).parseOrderBy
 
 /*@
 func (*Parser).handleLimitToken
-  props C11
+  props C11 C06 C16 C17
   option safety
   requires parOK(p) && stmt != nil
   modifies stmt.Limit, heap(Lexer.ch), heap(Lexer.pos), heap(Lexer.readPos), heap(Lexer.line), heap(Lexer.column), p.errorRecovery.errors
@@ -424,7 +424,7 @@ func (*Parser).handleLimitToken
   ensures limit-is-never-negative: stmt.Limit == old(stmt.Limit) || stmt.Limit >= 0
 
 func (*Parser).parseLimit
-  props C11
+  props C11 C06 C16 C17
   option safety
   requires parOK(p) && stmt != nil
   modifies stmt.Limit, p.errorRecovery.errors
@@ -477,11 +477,11 @@ func (*Lexer).GetPosition
 
 // string scanner over the rebuilt WHERE text; verified separately below where its index arithmetic is in reach
 extern extractWhereAnalyticCalls
-  props C11
+  props C11 C14
   option pure
 
 func (*Parser).parseWhere
-  props C11
+  props C11 C06 C16 C17
   option safety
   requires parOK(p) && stmt != nil
   modifies stmt.Condition, heap(Lexer.ch), heap(Lexer.pos), heap(Lexer.readPos), heap(Lexer.line), heap(Lexer.column), p.errorRecovery.errors
@@ -490,7 +490,7 @@ func (*Parser).parseWhere
   loop 1 decreases 101 - iterations
 
 func (*Parser).parseHaving
-  props C11
+  props C11 C06 C16 C17
   option safety
   requires parOK(p) && stmt != nil
   modifies stmt.Having, heap(Lexer.ch), heap(Lexer.pos), heap(Lexer.readPos), heap(Lexer.line), heap(Lexer.column), p.errorRecovery.errors
@@ -503,16 +503,16 @@ func (*Parser).parseHaving
 pred lexMods() := true
 
 func convertValue
-  props C11
+  props C11 C06 C16 C17
   option safety
 
 func isClauseBoundaryIdent
-  props C11
+  props C11 C06 C16 C17
   option safety
   option pure
 
 func (*Parser).parseWindowFunction
-  props C11
+  props C11 C06 C16 C17
   option safety
   requires parOK(p) && stmt != nil
   modifies stmt.Window, heap(Lexer.ch), heap(Lexer.pos), heap(Lexer.readPos), heap(Lexer.line), heap(Lexer.column), p.errorRecovery.errors
@@ -521,7 +521,7 @@ func (*Parser).parseWindowFunction
   loop 1 decreases 101 - iterations
 
 func (*Parser).parseGlobalWindow
-  props C11
+  props C11 C06 C16 C17
   option safety
   requires parOK(p) && stmt != nil
   modifies stmt.Window, heap(Lexer.ch), heap(Lexer.pos), heap(Lexer.readPos), heap(Lexer.line), heap(Lexer.column), p.errorRecovery.errors
@@ -530,7 +530,7 @@ func (*Parser).parseGlobalWindow
   loop 1 decreases 101 - iter
 
 func (*Parser).parseOverPartitionBy
-  props C11
+  props C11 C06 C16 C17
   option safety
   requires parOK(p) && spec != nil
   modifies spec.PartitionBy, heap(Lexer.ch), heap(Lexer.pos), heap(Lexer.readPos), heap(Lexer.line), heap(Lexer.column), p.errorRecovery.errors
@@ -539,7 +539,7 @@ func (*Parser).parseOverPartitionBy
   loop 1 decreases len(p.lexer.input) - p.lexer.pos
 
 func (*Parser).parseOverWhen
-  props C11
+  props C11 C06 C16 C17
   option safety
   requires parOK(p)
   modifies heap(Lexer.ch), heap(Lexer.pos), heap(Lexer.readPos), heap(Lexer.line), heap(Lexer.column), p.errorRecovery.errors
@@ -548,7 +548,7 @@ func (*Parser).parseOverWhen
   loop 1 decreases 100 - i
 
 func (*Parser).parseOverClause
-  props C11
+  props C11 C06 C16 C17
   option safety
   requires parOK(p)
   modifies heap(types.OverSpec.PartitionBy), heap(types.OverSpec.When), heap(Lexer.ch), heap(Lexer.pos), heap(Lexer.readPos), heap(Lexer.line), heap(Lexer.column), p.errorRecovery.errors
@@ -558,7 +558,7 @@ func (*Parser).parseOverClause
   loop 1 decreases len(p.lexer.input) - p.lexer.pos
 
 func (*Parser).parseFrom
-  props C11
+  props C11 C06 C16 C17
   option safety
   requires parOK(p) && stmt != nil
   modifies stmt.Source, stmt.SourceAlias, heap(ParseError.Message), heap(ParseError.Context), heap(ParseError.Suggestions), heap(Lexer.ch), heap(Lexer.pos), heap(Lexer.readPos), heap(Lexer.line), heap(Lexer.column), p.errorRecovery.errors
@@ -567,11 +567,11 @@ func (*Parser).parseFrom
 
 /*@
 func stripAliasPrefix
-  props C11
+  props C11 C06 C16 C17
   option safety
 
 func (*Parser).readJoinedFieldName
-  props C11
+  props C11 C06 C16 C17
   option safety
   requires parOK(p)
   modifies heap(Lexer.ch), heap(Lexer.pos), heap(Lexer.readPos), heap(Lexer.line), heap(Lexer.column), p.errorRecovery.errors
@@ -581,7 +581,7 @@ func (*Parser).readJoinedFieldName
   loop 1 decreases len(p.lexer.input) - p.lexer.pos
 
 func (*Parser).parseJoin
-  props C11 C16
+  props C11 C16 C06 C17
   option safety
   requires parOK(p) && stmt != nil
   before stripAliasPrefix on-operands-are-stripped-of-the-stream-alias-and-of-this-joins-alias: $arg1 == stmt.SourceAlias && $arg2 == jc.Alias
@@ -595,12 +595,12 @@ func (*Parser).parseJoin
   loop 2 decreases len(p.lexer.input) - p.lexer.pos
 
 func collapseSpacesOutsideQuotes
-  props C11
+  props C11 C01 C04 C07 C14
   option safety
   loop 1 decreases len(s) - i
 
 func (*Parser).parseGroupBy
-  props C11
+  props C11 C06 C16 C17
   option safety
   requires parOK(p) && stmt != nil
   modifies heap(SelectStatement.GroupBy), heap(strings.Builder), stmt.Window, stmt.Limit, heap(types.OverSpec.PartitionBy), heap(types.OverSpec.When), heap(Lexer.ch), heap(Lexer.pos), heap(Lexer.readPos), heap(Lexer.line), heap(Lexer.column), p.errorRecovery.errors
@@ -611,12 +611,12 @@ func (*Parser).parseGroupBy
 
 /*@
 func isKeyword
-  props C11
+  props C11 C06 C16 C17
   option safety
   option pure
 
 func (*Parser).parseSelect
-  props C11
+  props C11 C06 C16 C17
   option safety
   requires parOK(p) && stmt != nil
   modifies stmt.Distinct, stmt.SelectAll, stmt.Fields, heap(strings.Builder), heap(types.OverSpec.PartitionBy), heap(types.OverSpec.When), heap(Lexer.ch), heap(Lexer.pos), heap(Lexer.readPos), heap(Lexer.line), heap(Lexer.column), p.errorRecovery.errors
@@ -629,7 +629,7 @@ func (*Parser).parseSelect
 
 /*@
 func (*Parser).parseWith
-  props C11
+  props C11 C06 C16 C17
   option safety
   requires parOK(p) && stmt != nil
   modifies stmt.Window, heap(Lexer.ch), heap(Lexer.pos), heap(Lexer.readPos), heap(Lexer.line), heap(Lexer.column), p.errorRecovery.errors
@@ -641,53 +641,53 @@ func (*Parser).parseWith
 /*@
 // ---------------------------------------------------------------- MATCH_RECOGNIZE parser (C11)
 func isMRClauseKeyword
-  props C11
+  props C11 C15
   option safety
   option pure
 
 func stripBackticks
-  props C11
+  props C11 C15
   option safety
   option pure
 
 func isMRIdentLike
-  props C11
+  props C11 C15
   option safety
   option pure
   ensures an-identifier-like-token-has-text: result ==> len(t.Value) > 0
 
 func isMRSymbolToken
-  props C11
+  props C11 C15
   option safety
   option pure
   ensures result <==> (t.Type == TokenQuotedIdent || isMRIdentLike(t))
 
 func isMRAtomStart
-  props C11
+  props C11 C15
   option safety
   option pure
   ensures result <==> (t.Type == TokenLParen || t.Type == TokenLBrace || isMRIdentLike(t))
 
 func durationUnit
-  props C11
+  props C11 C15
   option safety
 
 func (*Parser).expectKeyword
-  props C11
+  props C11 C15
   option safety
   requires parOK(p)
   modifies heap(Lexer.ch), heap(Lexer.pos), heap(Lexer.readPos), heap(Lexer.line), heap(Lexer.column), p.errorRecovery.errors
   ensures parOK(p) && errOK(result) && p.lexer.pos >= old(p.lexer.pos)
 
 func (*Parser).readSymbol
-  props C11
+  props C11 C15
   option safety
   requires parOK(p)
   modifies heap(Lexer.ch), heap(Lexer.pos), heap(Lexer.readPos), heap(Lexer.line), heap(Lexer.column), p.errorRecovery.errors
   ensures parOK(p) && errOK(result1) && p.lexer.pos >= old(p.lexer.pos)
 
 func (*Parser).readIdentList
-  props C11
+  props C11 C15
   option safety
   requires parOK(p)
   modifies heap(Lexer.ch), heap(Lexer.pos), heap(Lexer.readPos), heap(Lexer.line), heap(Lexer.column), p.errorRecovery.errors
@@ -696,7 +696,7 @@ func (*Parser).readIdentList
   loop 1 decreases len(p.lexer.input) - p.lexer.pos
 
 func (*Parser).readMROrderBy
-  props C11
+  props C11 C15
   option safety
   requires parOK(p)
   modifies heap(Lexer.ch), heap(Lexer.pos), heap(Lexer.readPos), heap(Lexer.line), heap(Lexer.column), p.errorRecovery.errors
@@ -705,7 +705,7 @@ func (*Parser).readMROrderBy
   loop 1 decreases len(p.lexer.input) - p.lexer.pos
 
 func (*Parser).expectRowPerMatch
-  props C11
+  props C11 C15
   option safety
   requires parOK(p)
   modifies heap(Lexer.ch), heap(Lexer.pos), heap(Lexer.readPos), heap(Lexer.line), heap(Lexer.column), p.errorRecovery.errors
@@ -713,7 +713,7 @@ func (*Parser).expectRowPerMatch
   loop 1 invariant parOK(p) && p.lexer.pos >= old(p.lexer.pos)
 
 func (*Parser).readMRUntilAS
-  props C11
+  props C11 C15
   option safety
   requires parOK(p)
   modifies heap(Lexer.ch), heap(Lexer.pos), heap(Lexer.readPos), heap(Lexer.line), heap(Lexer.column), p.errorRecovery.errors
@@ -722,7 +722,7 @@ func (*Parser).readMRUntilAS
   loop 1 decreases 1000 - i
 
 func (*Parser).readMRExpr
-  props C11
+  props C11 C15
   option safety
   requires parOK(p)
   modifies heap(Lexer.ch), heap(Lexer.pos), heap(Lexer.readPos), heap(Lexer.line), heap(Lexer.column), p.errorRecovery.errors
@@ -731,7 +731,7 @@ func (*Parser).readMRExpr
   loop 1 decreases 1000 - i
 
 func (*Parser).readMRMeasures
-  props C11
+  props C11 C15
   option safety
   requires parOK(p)
   modifies heap(Lexer.ch), heap(Lexer.pos), heap(Lexer.readPos), heap(Lexer.line), heap(Lexer.column), p.errorRecovery.errors
@@ -740,7 +740,7 @@ func (*Parser).readMRMeasures
   loop 1 decreases len(p.lexer.input) - p.lexer.pos
 
 func (*Parser).readMRDefines
-  props C11
+  props C11 C15
   option safety
   requires parOK(p)
   modifies heap(Lexer.ch), heap(Lexer.pos), heap(Lexer.readPos), heap(Lexer.line), heap(Lexer.column), p.errorRecovery.errors
@@ -749,7 +749,7 @@ func (*Parser).readMRDefines
   loop 1 decreases len(p.lexer.input) - p.lexer.pos
 
 func (*Parser).readMRSubsets
-  props C11
+  props C11 C15
   option safety
   requires parOK(p)
   modifies heap(Lexer.ch), heap(Lexer.pos), heap(Lexer.readPos), heap(Lexer.line), heap(Lexer.column), p.errorRecovery.errors
@@ -758,35 +758,35 @@ func (*Parser).readMRSubsets
   loop 1 decreases len(p.lexer.input) - p.lexer.pos
 
 func (*Parser).readMRAfterMatchSkip
-  props C11
+  props C11 C15
   option safety
   requires parOK(p) && spec != nil
   modifies spec.Skip, spec.SkipSymbol, heap(Lexer.ch), heap(Lexer.pos), heap(Lexer.readPos), heap(Lexer.line), heap(Lexer.column), p.errorRecovery.errors
   ensures parOK(p) && errOK(result) && p.lexer.pos >= old(p.lexer.pos)
 
 func (*Parser).parseMRDuration
-  props C11
+  props C11 C15
   option safety
   requires parOK(p)
   modifies heap(Lexer.ch), heap(Lexer.pos), heap(Lexer.readPos), heap(Lexer.line), heap(Lexer.column), p.errorRecovery.errors
   ensures parOK(p) && errOK(result1) && p.lexer.pos >= old(p.lexer.pos)
 
 func (*Parser).consumeReluctant
-  props C11
+  props C11 C15
   option safety
   requires parOK(p)
   modifies heap(Lexer.ch), heap(Lexer.pos), heap(Lexer.readPos), heap(Lexer.line), heap(Lexer.column), p.errorRecovery.errors
   ensures parOK(p) && p.lexer.pos >= old(p.lexer.pos)
 
 func (*Parser).parseMRBounded
-  props C11
+  props C11 C15
   option safety
   requires parOK(p)
   modifies heap(Lexer.ch), heap(Lexer.pos), heap(Lexer.readPos), heap(Lexer.line), heap(Lexer.column), p.errorRecovery.errors
   ensures parOK(p) && errOK(result1) && p.lexer.pos >= old(p.lexer.pos)
 
 func (*Parser).tryMRQuantifier
-  props C11
+  props C11 C15
   option safety
   requires parOK(p)
   modifies heap(Lexer.ch), heap(Lexer.pos), heap(Lexer.readPos), heap(Lexer.line), heap(Lexer.column), p.errorRecovery.errors
@@ -794,7 +794,7 @@ func (*Parser).tryMRQuantifier
 
 // the pattern grammar is mutually recursive; termination measure: 8 * (bytes left) + rank of the nonterminal
 func (*Parser).parseMRAlternation
-  props C11
+  props C11 C15
   ensures success-consumes-input: result1 == nil ==> p.lexer.pos > old(p.lexer.pos)
   option safety
   recgroup mrpattern
@@ -807,7 +807,7 @@ func (*Parser).parseMRAlternation
   loop 1 decreases len(p.lexer.input) - p.lexer.pos
 
 func (*Parser).parseMRSequence
-  props C11
+  props C11 C15
   ensures success-consumes-input: result1 == nil ==> p.lexer.pos > old(p.lexer.pos)
   option safety
   recgroup mrpattern
@@ -820,7 +820,7 @@ func (*Parser).parseMRSequence
   loop 1 decreases len(p.lexer.input) - p.lexer.pos
 
 func (*Parser).parseMRQuantified
-  props C11
+  props C11 C15
   option safety
   recgroup mrpattern
   decreases 8 * (len(p.lexer.input) - p.lexer.pos) + 1
@@ -831,7 +831,7 @@ func (*Parser).parseMRQuantified
   ensures a-quantified-atom-consumes-input: result1 == nil ==> p.lexer.pos > old(p.lexer.pos)
 
 func (*Parser).parseMRAtom
-  props C11
+  props C11 C15
   option safety
   recgroup mrpattern
   decreases 8 * (len(p.lexer.input) - p.lexer.pos)
@@ -842,7 +842,7 @@ func (*Parser).parseMRAtom
   ensures an-atom-consumes-input: result1 == nil ==> p.lexer.pos > old(p.lexer.pos)
 
 func (*Parser).parseMRPermute
-  props C11
+  props C11 C15
   ensures success-consumes-input: result1 == nil ==> p.lexer.pos > old(p.lexer.pos)
   option safety
   recgroup mrpattern
@@ -855,14 +855,14 @@ func (*Parser).parseMRPermute
   loop 1 decreases len(p.lexer.input) - p.lexer.pos
 
 func (*Parser).parseMRPatternBody
-  props C11
+  props C11 C15
   option safety
   requires parOK(p)
   modifies heap(Lexer.ch), heap(Lexer.pos), heap(Lexer.readPos), heap(Lexer.line), heap(Lexer.column), p.errorRecovery.errors
   ensures parOK(p) && errOK(result1) && p.lexer.pos >= old(p.lexer.pos)
 
 func (*Parser).parseMatchRecognize
-  props C11
+  props C11 C15
   option safety
   requires parOK(p) && stmt != nil
   modifies stmt.MatchRecognize, heap(Lexer.ch), heap(Lexer.pos), heap(Lexer.readPos), heap(Lexer.line), heap(Lexer.column), p.errorRecovery.errors
@@ -874,7 +874,7 @@ func (*Parser).parseMatchRecognize
 /*@
 // ---------------------------------------------------------------- entry points (C11)
 func (*Parser).Parse
-  props C11
+  props C11 C06 C16 C17
   option safety
   requires parOK(p)
   modifies *
@@ -884,15 +884,15 @@ func (*Parser).Parse
 // AST -> configuration: outside the functions under contract (regular-expression based helpers in ast.go); only
 // its frame is assumed here. Its own totality is NOT proved.
 extern (*SelectStatement).ToStreamConfig
-  props C11
+  props C11 C01 C04 C07 C14
   modifies *
 
 extern groupKeyIsScalarFunctionExpr
-  props C11
+  props C11 C01 C04 C07 C14
   option pure
 
 func Parse
-  props C11
+  props C11 C06 C16 C17
   option safety
   modifies *
 @*/
